@@ -439,3 +439,9 @@ Proof.
 Qed.
 
 End Cache.
+
+(* the code as it stands after the repair (fixed = true): no panic on any
+   cache file, for either source *)
+Theorem cache_no_panic_repaired : forall (o : list N -> fcl) src file now max_age k,
+  cache_rates o true src file now max_age <> OPanic k.
+Proof. intros. apply cache_no_panic. now left. Qed.
